@@ -132,15 +132,29 @@ func (a PostCommitVolumes) SubtractPostings(postings Postings) PostCommitVolumes
 }
 
 func (a PostCommitVolumes) AddInput(account, asset string, input *big.Int) {
-	volumes := a[account][asset].Copy()
+	volumes := a.volumesOrEmpty(account, asset)
 	volumes.Input.Add(volumes.Input, input)
 	a[account][asset] = volumes
 }
 
 func (a PostCommitVolumes) AddOutput(account, asset string, output *big.Int) {
-	volumes := a[account][asset].Copy()
+	volumes := a.volumesOrEmpty(account, asset)
 	volumes.Output.Add(volumes.Output, output)
 	a[account][asset] = volumes
+}
+
+// volumesOrEmpty returns a copy of the volumes of account/asset, or empty
+// volumes when the pair is absent (a transaction decoded from an untrusted log
+// stream can carry postings on pairs its postCommitVolumes do not mention).
+func (a PostCommitVolumes) volumesOrEmpty(account, asset string) Volumes {
+	if _, ok := a[account]; !ok {
+		a[account] = VolumesByAssets{}
+	}
+	volumes, ok := a[account][asset]
+	if !ok || volumes.Input == nil || volumes.Output == nil {
+		return NewEmptyVolumes()
+	}
+	return volumes.Copy()
 }
 
 func (a PostCommitVolumes) Copy() PostCommitVolumes {
